@@ -93,8 +93,143 @@ fn set(v: &[String]) -> Option<HashSet<String>> {
     }
 }
 
+thread_local! {
+    // when set, `to_main_config` goes the way an administrator goes: the specification is written
+    // as TOML text and loaded by the repository's `MainConfig::new` (used by C20's toml_sessions)
+    pub static VIA_TOML: std::cell::Cell<bool> = std::cell::Cell::new(false);
+}
+
+static TOML_SEQ: std::sync::atomic::AtomicU64 = std::sync::atomic::AtomicU64::new(0);
+
+fn q(s: &str) -> String {
+    // TOML basic string
+    let mut o = String::from("\"");
+    for ch in s.chars() {
+        match ch {
+            '"' => o.push_str("\\\""),
+            '\\' => o.push_str("\\\\"),
+            '\n' => o.push_str("\\n"),
+            '\t' => o.push_str("\\t"),
+            c if (c as u32) < 0x20 || c as u32 == 0x7f => o.push_str(&format!("\\u{:04X}", c as u32)),
+            c => o.push(c),
+        }
+    }
+    o.push('"');
+    o
+}
+
+fn qlist(v: &[String]) -> String {
+    format!("[ {} ]", v.iter().map(|x| q(x)).collect::<Vec<_>>().join(", "))
+}
+
+pub fn load_toml(toml: &str) -> Result<MainConfig, String> {
+    let dir = format!("{}/.build/tmp", crate::runner::VERIF_DIR);
+    let _ = std::fs::create_dir_all(&dir);
+    let path = format!("{}/spec-{}-{}.toml", dir, std::process::id(), TOML_SEQ.fetch_add(1, std::sync::atomic::Ordering::Relaxed));
+    std::fs::write(&path, toml).map_err(|e| e.to_string())?;
+    let args = vec!["simple-irc-server".to_string(), "-c".to_string(), path.clone()];
+    use clap::Parser;
+    let r = match crate::Cli::try_parse_from(args.iter()) {
+        Ok(cli) => MainConfig::new(cli).map_err(|e| e.to_string()),
+        Err(e) => Err(format!("cli: {}", e.kind())),
+    };
+    let _ = std::fs::remove_file(&path);
+    r
+}
+
 impl CfgSpec {
+    // the same configuration as TOML text, every documented key spelled out
+    pub fn to_toml(&self) -> String {
+        let d = MainConfig::default();
+        let mut t = String::new();
+        t += &format!("name = {}\n", q(SERVER_NAME));
+        t += &format!("admin_info = {}\n", q(&d.admin_info));
+        t += &format!("info = {}\n", q(&d.info));
+        t += &format!("listen = {}\n", q(&d.listen.to_string()));
+        t += &format!("port = {}\n", d.port);
+        if let Some(p) = &self.password {
+            t += &format!("password = {}\n", q(&hash_of(p)));
+        }
+        t += &format!("network = {}\n", q(&d.network));
+        if let Some(m) = self.max_connections {
+            t += &format!("max_connections = {}\n", m);
+        }
+        if let Some(m) = self.max_joins {
+            t += &format!("max_joins = {}\n", m);
+        }
+        t += &format!("ping_timeout = {}\n", self.ping_timeout);
+        t += &format!("pong_timeout = {}\n", self.pong_timeout);
+        t += &format!("motd = {}\n", q(&self.motd));
+        t += "dns_lookup = false\n";
+        t += "log_level = \"INFO\"\n";
+        t += "\n[default_user_modes]\n";
+        for (k, l) in [("invisible", 'i'), ("oper", 'o'), ("local_oper", 'O'), ("registered", 'r'), ("wallops", 'w')] {
+            t += &format!("{} = {}\n", k, self.default_modes.contains(l));
+        }
+        for o in &self.opers {
+            t += "\n[[operators]]\n";
+            t += &format!("name = {}\n", q(&o.name));
+            t += &format!("password = {}\n", q(&hash_of(&o.password)));
+            if let Some(m) = &o.mask {
+                t += &format!("mask = {}\n", q(m));
+            }
+        }
+        for u in &self.users {
+            t += "\n[[users]]\n";
+            t += &format!("name = {}\n", q(&u.name));
+            t += &format!("nick = {}\n", q(&u.nick));
+            if let Some(p) = &u.password {
+                t += &format!("password = {}\n", q(&hash_of(p)));
+            }
+            if let Some(m) = &u.mask {
+                t += &format!("mask = {}\n", q(m));
+            }
+        }
+        for ch in &self.channels {
+            t += "\n[[channels]]\n";
+            t += &format!("name = {}\n", q(&ch.name));
+            if let Some(tp) = &ch.topic {
+                t += &format!("topic = {}\n", q(tp));
+            }
+            t += "\n[channels.modes]\n";
+            for (k, v) in [
+                ("ban", &ch.ban),
+                ("exception", &ch.except),
+                ("invite_exception", &ch.invex),
+                ("founders", &ch.founders),
+                ("protecteds", &ch.protecteds),
+                ("operators", &ch.operators),
+                ("half_operators", &ch.half_operators),
+                ("voices", &ch.voices),
+            ] {
+                if !v.is_empty() {
+                    t += &format!("{} = {}\n", k, qlist(v));
+                }
+            }
+            if let Some(k) = &ch.key {
+                t += &format!("key = {}\n", q(k));
+            }
+            if let Some(l) = ch.limit {
+                t += &format!("client_limit = {}\n", l);
+            }
+            for (k, l) in [("moderated", 'm'), ("invite_only", 'i'), ("secret", 's'), ("protected_topic", 't'), ("no_external_messages", 'n')] {
+                t += &format!("{} = {}\n", k, ch.flags.contains(l));
+            }
+        }
+        t
+    }
+
     pub fn to_main_config(&self) -> MainConfig {
+        if VIA_TOML.with(|v| v.get()) {
+            match load_toml(&self.to_toml()) {
+                Ok(c) => return c,
+                Err(e) => panic!("harness: the TOML rendering of a valid specification was rejected: {}", e),
+            }
+        }
+        self.to_main_config_direct()
+    }
+
+    pub fn to_main_config_direct(&self) -> MainConfig {
         let mut c = MainConfig::default();
         c.name = SERVER_NAME.to_string();
         c.motd = self.motd.clone();
